@@ -346,8 +346,12 @@ func (c *checker) judgeList(n int, tt []pagesel.Term, amb bool, got []int, err e
 	return v
 }
 
-// attribute builds the violation key: the first term that shows the same class when evaluated
-// alone is named; otherwise the defect only shows in composition and the shapes are listed.
+// attribute builds the violation key. A term that shows the same class when evaluated alone (negated
+// terms: after "-l") is named: <api>/<class>/term=<shape>. Otherwise the defect only shows in
+// composition; the key then names the last term of the shortest prefix of the expression that already
+// violates, i.e. the term whose arrival breaks the evaluation: <api>/<class>/compose/last=<shape>.
+// One compositional defect so yields a handful of keys (at most one per term shape) instead of one per
+// combination of shapes (a "negation removes only the first occurrence" mutant produced 2544 keys).
 var termKeyCache sync.Map // [3]string{api, class, term shape} -> key
 
 func termKey(api, class, shape string) string {
@@ -360,23 +364,106 @@ func termKey(api, class, shape string) string {
 	return k
 }
 
-func attribute(api, class string, recs []*termRec, bad func(*termRec) string) string {
+func composeKey(api, class, shape string) string {
+	id := [3]string{api + "\x00compose", class, shape}
+	if k, ok := termKeyCache.Load(id); ok {
+		return k.(string)
+	}
+	k := fmt.Sprintf("%s/%s/compose/last=%s", api, class, shape)
+	termKeyCache.Store(id, k)
+	return k
+}
+
+func (c *checker) attribute(apiName, class string, n int, recs []*termRec, tt []pagesel.Term, bad func(*termRec) string) string {
 	if len(recs) == 1 {
-		return termKey(api, class, recs[0].key)
+		return termKey(apiName, class, recs[0].key)
 	}
 	if len(recs) == 2 && recs[0].probe {
-		return termKey(api, class, recs[1].key)
+		return termKey(apiName, class, recs[1].key)
 	}
-	for _, r := range recs {
-		if b := bad(r); b != "" && (b == class || strings.HasPrefix(class, b) || strings.HasPrefix(b, class)) {
-			return termKey(api, class, r.key)
+	if apiName == "syntax" {
+		for _, r := range recs {
+			if c.classOf(apiName, n, []*termRec{r}, []pagesel.Term{r.t}) != "" {
+				return termKey(apiName, class, r.key)
+			}
+		}
+	} else {
+		for _, r := range recs {
+			if b := bad(r); b != "" && (b == class || strings.HasPrefix(class, b) || strings.HasPrefix(b, class)) {
+				return termKey(apiName, class, r.key)
+			}
 		}
 	}
-	kk := make([]string, len(recs))
-	for i, r := range recs {
-		kk[i] = r.key
+	last := recs[len(recs)-1]
+	for k := 2; k < len(recs); k++ {
+		if c.classOf(apiName, n, recs[:k], tt[:k]) != "" {
+			last = recs[k-1]
+			break
+		}
 	}
-	return fmt.Sprintf("%s/%s/compose=%s", api, class, strings.Join(kk, ","))
+	return composeKey(apiName, class, last.key)
+}
+
+// classOf evaluates one expression with one API ("syntax", "selection", "removal", "collection") and
+// returns the violation class ("" = agrees with the reference). Used for key attribution only.
+func (c *checker) classOf(apiName string, n int, recs []*termRec, tt []pagesel.Term) string {
+	parts := make([]string, len(recs))
+	for i, r := range recs {
+		parts[i] = r.s
+	}
+	st := &stats{}
+	amb := anyAmbiguous(recs)
+	switch apiName {
+	case "syntax":
+		var got []string
+		var err error
+		if p := guard(st, func() { got, err = api.ParsePageSelection(strings.Join(parts, ",")) }); p != nil {
+			return "panic"
+		}
+		if err != nil {
+			return "rejected-valid"
+		}
+		if !eqStrings(got, parts) {
+			return "wrong-split"
+		}
+	case "selection", "removal":
+		var m map[int]bool
+		var err error
+		if p := guard(st, func() {
+			if apiName == "selection" {
+				m, err = api.PagesForPageSelection(n, parts, false, false)
+			} else {
+				m, err = api.RemainingPagesForPageRemoval(n, parts, false)
+			}
+		}); p != nil {
+			return "panic"
+		}
+		if err != nil {
+			return "error-on-valid"
+		}
+		got, outside := trueMask(m, n, st)
+		return c.judgeSet(n, tt, amb, got, outside, apiName == "removal").class
+	case "collection":
+		var l []int
+		var err error
+		if p := guard(st, func() { l, err = api.PagesForPageCollection(n, parts) }); p != nil {
+			return "panic"
+		}
+		return c.judgeList(n, tt, amb, l, err, st).class
+	}
+	return ""
+}
+
+func eqStrings(a, b []string) bool {
+	if len(a) != len(b) {
+		return false
+	}
+	for i := range a {
+		if a[i] != b[i] {
+			return false
+		}
+	}
+	return true
 }
 
 func guard(st *stats, f func()) (panicked any) {
@@ -440,7 +527,7 @@ func (c *checker) checkExpr(n int, recs []*termRec, tt []pagesel.Term, st *stats
 			return
 		}
 		if perr != nil {
-			c.violate(st, attribute("syntax", "rejected-valid", recs, noBad),
+			c.violate(st, c.attribute("syntax", "rejected-valid", n, recs, tt, noBad),
 				func() string {
 					return fmt.Sprintf("ParsePageSelection(%q) rejects an expression of the documented grammar: %v", expr, perr)
 				}, rc("ParsePageSelection", "reject", "accept"))
@@ -452,7 +539,7 @@ func (c *checker) checkExpr(n int, recs []*termRec, tt []pagesel.Term, st *stats
 			}
 			if !ok {
 				got := fmt.Sprintf("%q", parts)
-				c.violate(st, attribute("syntax", "wrong-split", recs, noBad),
+				c.violate(st, c.attribute("syntax", "wrong-split", n, recs, tt, noBad),
 					func() string {
 						return fmt.Sprintf("ParsePageSelection(%q) = %s, want the comma separated terms", expr, got)
 					}, rc("ParsePageSelection", got, "terms"))
@@ -468,14 +555,14 @@ func (c *checker) checkExpr(n int, recs []*termRec, tt []pagesel.Term, st *stats
 		st.selCalls++
 		badSel := func(r *termRec) string { return r.badSel }
 		if p := guard(st, func() { m, err = api.PagesForPageSelection(n, parts, false, false) }); p != nil {
-			c.violate(st, attribute("selection", "panic", recs, badSel),
+			c.violate(st, c.attribute("selection", "panic", n, recs, tt, badSel),
 				func() string { return fmt.Sprintf("PagesForPageSelection(%d, [%s]) panics: %v", n, exprOf(recs), p) }, rc("PagesForPageSelection", "panic", ""))
 		} else if err != nil {
 			st.lastSel = "error-on-valid"
 			if record {
 				recs[0].badSel = "error-on-valid"
 			}
-			c.violate(st, attribute("selection", "error-on-valid", recs, badSel),
+			c.violate(st, c.attribute("selection", "error-on-valid", n, recs, tt, badSel),
 				func() string {
 					return fmt.Sprintf("PagesForPageSelection(%d, [%s]) fails on a valid expression: %v", n, exprOf(recs), err)
 				}, rc("PagesForPageSelection", "error: "+err.Error(), maskString(plainSel, nil)))
@@ -492,7 +579,7 @@ func (c *checker) checkExpr(n int, recs []*termRec, tt []pagesel.Term, st *stats
 				if record {
 					recs[0].badSel = v.class
 				}
-				c.violate(st, attribute("selection", v.class, recs, badSel),
+				c.violate(st, c.attribute("selection", v.class, n, recs, tt, badSel),
 					func() string {
 						return fmt.Sprintf("PagesForPageSelection(%d, [%s]) selects %s; reference (plain reading) %s; selected pages must lie within 1..%d",
 							n, exprOf(recs), v.gotString(), maskString(plainSel, nil), n)
@@ -514,7 +601,7 @@ func (c *checker) checkExpr(n int, recs []*termRec, tt []pagesel.Term, st *stats
 		plainRem := pagesel.AllMask(n) &^ plainSel
 		badRem := func(r *termRec) string { return r.badRem }
 		if p := guard(st, func() { m, err = api.RemainingPagesForPageRemoval(n, parts, false) }); p != nil {
-			c.violate(st, attribute("removal", "panic", recs, badRem),
+			c.violate(st, c.attribute("removal", "panic", n, recs, tt, badRem),
 				func() string {
 					return fmt.Sprintf("RemainingPagesForPageRemoval(%d, [%s]) panics: %v", n, exprOf(recs), p)
 				}, rc("RemainingPagesForPageRemoval", "panic", ""))
@@ -523,7 +610,7 @@ func (c *checker) checkExpr(n int, recs []*termRec, tt []pagesel.Term, st *stats
 			if record {
 				recs[0].badRem = "error-on-valid"
 			}
-			c.violate(st, attribute("removal", "error-on-valid", recs, badRem),
+			c.violate(st, c.attribute("removal", "error-on-valid", n, recs, tt, badRem),
 				func() string {
 					return fmt.Sprintf("RemainingPagesForPageRemoval(%d, [%s]) fails on a valid expression: %v", n, exprOf(recs), err)
 				}, rc("RemainingPagesForPageRemoval", "error: "+err.Error(), maskString(plainRem, nil)))
@@ -535,7 +622,7 @@ func (c *checker) checkExpr(n int, recs []*termRec, tt []pagesel.Term, st *stats
 				if record {
 					recs[0].badRem = v.class
 				}
-				c.violate(st, attribute("removal", v.class, recs, badRem),
+				c.violate(st, c.attribute("removal", v.class, n, recs, tt, badRem),
 					func() string {
 						return fmt.Sprintf("RemainingPagesForPageRemoval(%d, [%s]) keeps %s; reference (plain reading) %s", n, exprOf(recs), v.gotString(), maskString(plainRem, nil))
 					}, rcf(func() replayCase {
@@ -552,7 +639,7 @@ func (c *checker) checkExpr(n int, recs []*termRec, tt []pagesel.Term, st *stats
 		st.colCalls++
 		badCol := func(r *termRec) string { return r.badCol }
 		if p := guard(st, func() { l, err = api.PagesForPageCollection(n, parts) }); p != nil {
-			c.violate(st, attribute("collection", "panic", recs, badCol),
+			c.violate(st, c.attribute("collection", "panic", n, recs, tt, badCol),
 				func() string { return fmt.Sprintf("PagesForPageCollection(%d, [%s]) panics: %v", n, exprOf(recs), p) }, rc("PagesForPageCollection", "panic", ""))
 		} else {
 			v := c.judgeList(n, tt, amb, l, err, st)
@@ -561,7 +648,7 @@ func (c *checker) checkExpr(n int, recs []*termRec, tt []pagesel.Term, st *stats
 				if record {
 					recs[0].badCol = v.class
 				}
-				c.violate(st, attribute("collection", v.class, recs, badCol),
+				c.violate(st, c.attribute("collection", v.class, n, recs, tt, badCol),
 					func() string {
 						return fmt.Sprintf("PagesForPageCollection(%d, [%s]) = %s; reference (plain reading) %v; listed pages must lie within 1..%d",
 							n, exprOf(recs), v.got, pagesel.Collection(n, tt, readings[0]), n)
@@ -861,7 +948,7 @@ func main() {
 		t.Assume("every other range term denotes its integer interval intersected with 1..N (numbers beyond N are clipped, reversed ranges are empty), as DESIGN §C31 states")
 		t.Assume("the returned IntSet is read as: selected = keys with value true; keys with value false (decided, deselected) are not judged, only counted when outside 1..N")
 		t.Assume("page collections: a negated term removes the earlier occurrences of its pages (only reading under which 'deselects' is meaningful for a list; pdfcpu's own test table agrees); even/odd append their pages regardless of earlier terms; an empty collection may be reported as error 'no page selected'")
-		t.Assume("syntax check: the empty string (= no selection), white space inside an otherwise valid expression and negated even/odd are not specified by the usage text: either verdict accepted; numbers that do not fit int are syntactically valid but not evaluated")
+		t.Assume("syntax check: the empty string (= no selection), white space inside an otherwise valid expression and negated even/odd are not specified by the usage text: either verdict accepted; numbers that do not fit int are syntactically valid but not evaluated; in the strings layer expressions with a number > 1 000 000 are checked for syntax only (an evaluator without clamping would need O(number) memory)")
 		t.Assume("RemainingPagesForPageRemoval result = 1..N minus the selection")
 
 		c.enumerate(maxTerms)
